@@ -16,8 +16,10 @@ PROP = "C10"
 THEOREMS = ["Lbfgsb.C10.kernel_matrix_is_bfgs", "Lbfgsb.CompactBridge.block_compact_eq_bfgs", "Lbfgsb.C10.reject_is_noop", "Lbfgsb.C10.accept_appends_and_drops_oldest", "Lbfgsb.C10.mem_le_maxcor_seq",
             "Lbfgsb.C10.newest_pair_curv", "Lbfgsb.C10.bfgs_symm", "Lbfgsb.C10.bfgs_secant", "Lbfgsb.C10.bfgs_posdef",
             "Lbfgsb.C10.bfgs_chain_posdef", "Lbfgsb.C10.scaled_identity_spd", "Lbfgsb.C10.compact_secant",
-            "Lbfgsb.C10.compact_eq_bfgs", "Lbfgsb.C10.compact_eq_bfgs_of_curvature", "Lbfgsb.C10.nonDeg_of_curvature", "Lbfgsb.C10.invM_factorisation", "Lbfgsb.C10.bmv_is_product"]
-MODULES = ["LbfgsbVerif.Props.C10Kernel", "LbfgsbVerif.Props.C10", "LbfgsbVerif.Props.C10Compact", "LbfgsbVerif.Props.C10Factor"]
+            "Lbfgsb.C10.compact_eq_bfgs", "Lbfgsb.C10.compact_eq_bfgs_of_curvature", "Lbfgsb.C10.nonDeg_of_curvature", "Lbfgsb.C10.invM_factorisation", "Lbfgsb.C10.bmv_is_product",
+            "Lbfgsb.C10.bfgs_units", "Lbfgsb.C10.bfgsChain_units", "Lbfgsb.C10.bfgsChain_theta_units"]
+MODULES = ["LbfgsbVerif.Props.C10Kernel", "LbfgsbVerif.Props.C10", "LbfgsbVerif.Props.C10Compact", "LbfgsbVerif.Props.C10Factor",
+            "LbfgsbVerif.Props.C10Units"]
 
 
 def dense_bfgs(X: List[np.ndarray], G: List[np.ndarray]) -> np.ndarray:
